@@ -212,7 +212,7 @@ def run(tier, seed):
         ds = list(range(1, 41)) + [50, 64, 80, 100, 128, 160, 200]
         reps = 3
     for d in ds:
-        for _ in range(reps):
+        for _ in range(reps if d < 128 else 1):       # the exact certificate at d >= 128 takes tens of minutes per instance
             delta = float(10 ** rng.uniform(-3, -0.02))
             one(ctx, FP, d, delta)
         if d in (1, 2, 5, 13):
